@@ -5,7 +5,7 @@ import Model.Submit
 
   scenario <name> <startNs> <limitNs>
   cert <id> <sha256(der)> <sha256(spki)> <ctEku 0|1>
-  setroots <ids|-> <bundle parses 0|1> <ok|err>
+  setroots <ids|-> <bundle parses 0|1> <ok|err> <bundle persisted 0|1>
   getroots <status> <fingerprints in order|->
   restart
   sub <name> ep=… m=… body=… chain=<ids|-> parses= na= eku= linked= anchor=<id|-> anchorsub= poison= defang= tbs=<h>,<h>
@@ -120,16 +120,16 @@ def onLine (st : St) (n : Nat) (l : String) : IO St := do
     match Bytes.ofHex fp, Bytes.ofHex spki, bit ct with
     | some fp, some spki, some ct => return { (st.good "cert") with certs := (id, ⟨fp, spki, ct⟩) :: st.certs }
     | _, _, _ => st.bad n s!"bad cert line: {l}"
-  | ["setroots", idl, ok, res] =>
-    match (ids idl).mapM (lookup st), bit ok with
-    | some cs, some ok =>
+  | ["setroots", idl, ok, res, stored] =>
+    match (ids idl).mapM (lookup st), bit ok, bit stored with
+    | some cs, some ok, some stored =>
       let pem : Option (List Bytes) := if ok then some (cs.map (·.der)) else none
-      let (s', good) := setRoots st.s pem
+      let (s', good) := setRootsStored st.s pem stored
       let model := if good then "ok" else "err"
       let st := { st with s := s' }
       if model == res then return st.good s!"setroots:{res}"
       else st.bad n s!"SetRootsFromPEM: model={model} impl={res}"
-    | _, _ => st.bad n s!"bad setroots line: {l}"
+    | _, _, _ => st.bad n s!"bad setroots line: {l}"
   | ["restart"] => return st.good "restart"
   | ["getroots", status, fps] =>
     let model := showHexList (getRoots st.s)
